@@ -1272,17 +1272,44 @@ func ruleRelayLoopExits(c *Ctx, rule string) {
 				if !ok || call.Call.StaticCallee() != rl {
 					return
 				}
-				// followed (dominated-after) by Manager.Close or DeleteAllocation+conn.Close
-				okClean := false
-				w.eachInstr(fn, func(in2 ssa.Instruction) {
-					c2, ok := in2.(*ssa.Call)
-					if !ok {
-						return
+				// followed (dominated-after) by Manager.Close or DeleteAllocation+conn.Close — in
+				// this function, or, when the loop runs inside a serve callback / helper, after
+				// every call of that helper (resolved through the call graph, depth ≤ 3)
+				var tornDown func(site ssa.CallInstruction, depth int) bool
+				tornDown = func(site ssa.CallInstruction, depth int) bool {
+					if _, isGo := site.(*ssa.Go); isGo || depth > 3 {
+						return false // a goroutine of its own: nothing runs after it in the spawner
 					}
-					if (c2.Call.StaticCallee() == mclose || c2.Call.StaticCallee() == del) && instrReaches(call, c2) && call.Block().Dominates(c2.Block()) {
-						okClean = true
+					sv, isV := site.(ssa.Instruction)
+					if !isV || site.Parent() == nil {
+						return false
 					}
-				})
+					f := site.Parent()
+					okHere := false
+					w.eachInstr(f, func(in2 ssa.Instruction) {
+						c2, ok := in2.(*ssa.Call)
+						if !ok {
+							return
+						}
+						if (c2.Call.StaticCallee() == mclose || c2.Call.StaticCallee() == del) && instrReaches(sv, c2) && sv.Block().Dominates(c2.Block()) {
+							okHere = true
+						}
+					})
+					if okHere {
+						return true
+					}
+					node := w.CG.Nodes[f]
+					if node == nil || len(node.In) == 0 {
+						return false
+					}
+					for _, e := range node.In {
+						if e.Site == nil || !tornDown(e.Site, depth+1) {
+							return false
+						}
+					}
+					return true
+				}
+				okClean := tornDown(call, 0)
 				if okClean {
 					nOK++
 					c.OK(rule, fname(fn), "after readLoop", w.instrPos(in), "the goroutine closes the manager / deletes the connection's allocation after the loop ends")
